@@ -10,11 +10,12 @@ import AgVerif.Proof.Manifest
 import AgVerif.Proof.ManifestLauncher
 import AgVerif.Proof.ManifestFile
 import AgVerif.Proof.ManifestInt
+import AgVerif.Proof.ManifestEnc
 set_option linter.unusedSimpArgs false
 namespace AgVerif.C31
 open AgVerif.Manifest AgVerif.Spec.Manifest AgVerif.Proof.Manifest AgVerif.Gen.AxmlConsts
 open AgVerif.Axml (Str Node Attr lit printAxml)
-open AgVerif.Spec.Axml (Enc SNode wfDoc encodeAxml treeOf)
+open AgVerif.Spec.Axml (Enc SNode wfDoc encodeAxml treeOf StrOk)
 
 /-- `_format_value` is Android's name completion: leading dot / no dot / otherwise unchanged -/
 theorem format_value_spec (pkg v : Str) : formatValue (some pkg) v = complete pkg v := by
@@ -334,6 +335,37 @@ theorem effective_target_int (m : AppManifest) (h : m.WF) (s : UsesSdk) (hs : m.
   · intro ht hm
     rw [h2 (Val.int d).render (by simp [AppManifest.sdkVal, hs, ht]) (by simp [AppManifest.sdkVal, hs, hm]), intOrOne_render_int d hd]
 
+/-- the constructor: `APK()` does not raise on a manifest whose declared target / min SDK values are integers (or absent), and
+    raises `ValueError` (from `int()` when the permission tables are loaded) when the declared target is not an integer -/
+theorem ctor_of_model (m : AppManifest) (h : m.WF) :
+    ((∀ s, m.sdkVal (·.target) = some s → ∃ v, pyInt s = .ok v) → (∀ s, m.sdkVal (·.min) = some s → ∃ v, pyInt s = .ok v) →
+      (analyse (some m.toXml)).ctorRaises = some false) ∧
+    (∀ s, m.sdkVal (·.target) = some s → pyInt s = .valueError → (analyse (some m.toXml)).ctorRaises = some true) := by
+  obtain ⟨h1, h2, _⟩ := queries_spec_sdk m h
+  have hroot : ((analyse (some m.toXml)).root.isSome && !(analyse (some m.toXml)).isManifest) = false := by
+    rw [analyse_toXml]; rfl
+  have hne : ∀ (f : UsesSdk → Option Val) (s : Str), (f = (·.target) ∨ f = (·.min)) → m.sdkVal f = some s → s.isEmpty = false := by
+    intro f s hf hs
+    simp only [AppManifest.sdkVal, Option.map_eq_some_iff, Option.bind_eq_some_iff] at hs
+    obtain ⟨v, ⟨u, hu, hv⟩, rfl⟩ := hs
+    have := h.2.2.2.1 u (by simp [hu]) v (by rcases hf with rfl | rfl <;> simp [UsesSdk.vals, hv])
+    simpa using this
+  have hload : ∀ (o : Option Str), (∀ s, o = some s → s.isEmpty = false) → (∀ s, o = some s → ∃ v, pyInt s = .ok v) →
+      apiLoadRaises (optFirst o) = some false := by
+    intro o he hi
+    cases o with
+    | none => rfl
+    | some s =>
+      obtain ⟨v, hv⟩ := hi s rfl
+      simp [optFirst, apiLoadRaises, he s rfl, hv]
+  constructor
+  · intro ht hm
+    simp only [Analysis.ctorRaises, hroot, Bool.false_eq_true, if_false, h1, h2,
+      hload _ (fun s hs => hne _ s (Or.inl rfl) hs) ht, hload _ (fun s hs => hne _ s (Or.inr rfl) hs) hm]
+  · intro s hs hv
+    simp only [Analysis.ctorRaises, hroot, Bool.false_eq_true, if_false, h2, hs, optFirst, apiLoadRaises,
+      hne _ s (Or.inl rfl) hs, hv]
+
 /-- `get_main_activities`: exactly the names of the enabled activities and aliases that have a filter with action MAIN and
     category LAUNCHER, each once -/
 theorem main_activities_of_model (m : AppManifest) (h : m.WF) :
@@ -402,6 +434,34 @@ theorem manifest_queries_on_file (opq : Nat → Nat → Str) (E : Enc) (ln : Nat
     (main_activity_of_model m hm).1, (main_activity_of_model m hm).2⟩
   simp [analyseFile, manifest_file_tree opq E ln m hf hdoc]
 
+/-- the domain, spelled out on the manifest and the encoding choice: the document `docOf ln m` satisfies C26's `wfDoc` under `E`
+    as soon as the line number and the integer / reference data are uint32 (`fits`), the string values are strings of XML
+    characters (`legal`), every string of the document is in the pool and the pool's strings fit its flavour, the resource map
+    renames neither an android attribute (`resOk`) nor `package`, and the file is shorter than 2^32 bytes.  (XML-legal tag and
+    attribute names, one attribute per name, the single namespace declaration hold by construction of `docOf`.) -/
+theorem manifest_doc_wf (opq : Nat → Nat → Str) (E : Enc) (ln : Nat) (m : AppManifest) (hln : ln < 2 ^ 32) (hf : m.fits = true)
+    (hl : m.legal = true) (hr : ∀ n, resOk E n = true) (hp : resOkPackage E = true)
+    (hs : ∀ s ∈ stringsOf (docOf ln m), s ∈ E.strings) (hpool : ∀ s ∈ E.strings, StrOk E.utf8 s)
+    (hids : ∀ i ∈ E.resIds.getD [], i < 2 ^ 32) (hsz : (encodeAxml E (docOf ln m)).length < 2 ^ 32) :
+    wfDoc opq E (docOf ln m) = true :=
+  wfDoc_docOf opq E ln m hln hf hl hr hp hs hpool hids hsz
+
+/-- … and such an encoding choice always exists: the canonical one (android attribute names first, then the strings of the
+    document; resource map = the resource ids of those names), UTF-8 or UTF-16, narrow or wide prefixes.  So for every
+    well-formed manifest with XML-string values whose strings fit the pool flavour and whose file is shorter than 2^32 bytes, the
+    printer followed by the analysis answers every listed query with what the manifest declares. -/
+theorem manifest_queries_on_canonical_file (opq : Nat → Nat → Str) (utf8 wide : Bool) (ln : Nat) (m : AppManifest) (hm : m.WF)
+    (hf : m.fits = true) (hl : m.legal = true) (hln : ln < 2 ^ 32) (hstr : ∀ s ∈ stringsOf (docOf ln m), StrOk utf8 s)
+    (hsz : (encodeAxml (canonEnc utf8 wide (docOf ln m)) (docOf ln m)).length < 2 ^ 32) :
+    ∃ a, analyseFile opq (encodeAxml (canonEnc utf8 wide (docOf ln m)) (docOf ln m)) = .ok a ∧
+      answersOfAnalysis a = m.answers ∧
+      (∀ n, n ∈ a.mainActivities ↔ ∃ act ∈ m.activities, act.isMain = true ∧ act.name = n) ∧ a.mainActivities.Nodup ∧
+      (m.mainNames = [] → a.mainActivity = none) ∧
+      (m.mainNames ≠ [] → ∃ r, a.mainActivity = some r ∧
+        r ∈ candidates (m.mainNames.map (complete m.package)) m.answers.activities ∧
+        ∀ y ∈ candidates (m.mainNames.map (complete m.package)) m.answers.activities, strLt y r = false) :=
+  manifest_queries_on_file opq _ ln m hm hf (wfDoc_canon opq utf8 wide ln m hln hf hl hstr hsz)
+
 /-! Non-vacuity -/
 example : WF ⟨lit "com.x", lit "7", lit "1.0", [lit "android.permission.INTERNET", lit "WRITE"], [], [lit ".Main"], [lit "Svc"], [], [], []⟩ := by
   refine ⟨by decide, by decide, by decide, ?_⟩
@@ -430,14 +490,13 @@ example : (analyse (some exManifest.toXml)).mainActivity = some (lit "com.x.Main
 example : exManifest.answers.effectiveTarget = some (.ok 33) ∧ exManifest.answers.permissions = [lit "android.permission.INTERNET", lit "WRITE"] ∧
     exManifest.answers.usesPermissions = [(some (lit "android.permission.INTERNET"), none), (some (lit "WRITE"), some (.ok 28)), (some (lit "WRITE"), none)] ∧
     exManifest.answers.activities = [lit "com.x.Main", lit "com.x.Off"] := by decide +kernel
-example : exManifest.fits = true := by decide
+example : exManifest.fits = true ∧ exManifest.legal = true := by decide
 /-- the resource ids the canonical encoding puts in the resource map are the ids of those attributes in the table generated
     from androguard's data (Gen/AxmlConsts `sysAttrNames`) -/
 theorem attr_res_ids : ∀ n ∈ allANames, AgVerif.Axml.sysAttrName (attrResId n) = some n.str := by decide +kernel
-/-- the example manifest's document is well formed under the canonical encoding choices (UTF-8 narrow, UTF-16 wide) -/
-theorem exManifest_doc_wf : wfDoc (fun _ _ => []) (canonEnc true false exManifest) (docOf 1 exManifest) = true := by decide +kernel
-example : wfDoc (fun _ _ => []) (canonEnc false true exManifest) (docOf 7 exManifest) = true := by decide +kernel
-example : ∃ a, analyseFile (fun _ _ => []) (encodeAxml (canonEnc true false exManifest) (docOf 1 exManifest)) = .ok a ∧
+/-- the example manifest's document is well formed under the canonical encoding choice (UTF-8, narrow prefixes; UTF-16 below) -/
+theorem exManifest_doc_wf : wfDoc (fun _ _ => []) (canonEnc true false (docOf 1 exManifest)) (docOf 1 exManifest) = true := by decide +kernel
+example : ∃ a, analyseFile (fun _ _ => []) (encodeAxml (canonEnc true false (docOf 1 exManifest)) (docOf 1 exManifest)) = .ok a ∧
     answersOfAnalysis a = exManifest.answers :=
   let ⟨a, h1, h2, _⟩ := manifest_queries_on_file _ _ 1 exManifest (by decide +kernel) (by decide) exManifest_doc_wf
   ⟨a, h1, h2⟩
@@ -448,7 +507,7 @@ def exManifest2 : AppManifest :=
     usesSdk := some ⟨some (.str (lit "21")), none, some (.ref 0x7f050001)⟩,
     permissions := [], features := [], activities := [], services := [lit ".S"], receivers := [lit "R"], providers := [], libraries := [] }
 example : exManifest2.WF ∧ exManifest2.fits = true := by decide +kernel
-example : wfDoc (fun _ _ => []) (canonEnc false false exManifest2) (docOf 3 exManifest2) = true := by decide +kernel
+example : wfDoc (fun _ _ => []) (canonEnc false false (docOf 3 exManifest2)) (docOf 3 exManifest2) = true := by decide +kernel
 example : exManifest2.answers.effectiveTarget = some (.ok 21) ∧ exManifest2.answers.maxSdk = .val (lit "@7F050001") ∧
     exManifest2.answers.services = [[0x63, 0xFC, 0x2E, 0x78, 0x2E, 0x53]] := by decide +kernel
 /-- the last clause of `AppManifest.WF` is needed: with MAIN in one filter and LAUNCHER in another, androguard reports a main
